@@ -97,3 +97,7 @@ for op, T in (('set_ui', 'mpir_ui'), ('set_si', 'mpir_si')):
 UNITS.append(dict(name='mpq_swap', props=P, source='mpq/swap.c', contracts=['mpz.h', 'c11.h', 'mpq.h'], enforce=['__gmpq_swap'],
                   harness='void h_mpq_swap (void) {\n%s%s  mpq_ptr u = &U, v = &V; if (nondet_bool ()) v = u;\n  __gmpq_swap (u, v);\n}' % (mpq_obj('U'), mpq_obj('V')),
                   selftest=[('__gmpq_swap', r'v->_mp_den._mp_size = usize', 'v->_mp_den._mp_size = vsize')]))
+
+for u in UNITS:
+    if u['name'] in ('mpq_inv_ds', 'mpq_inv', 'mpq_set', 'mpq_neg_ds', 'mpq_set_num_an', 'mpq_swap'):
+        u['quick_props'] = ['C04', 'C05']
